@@ -115,6 +115,17 @@ impl CodeCache {
       if code_slice.len() < 1 {
         break;
       }
+      // An instruction can extend past the end of the bank holding its first
+      // byte (e.g. JP nn at 0x3fff); fetch its bytes through the bus then.
+      let mut straddling = [0u8; 3];
+      let code_slice = if code_slice.len() < 3 {
+        for i in 0..3 {
+          straddling[i] = crate::mem::memory_read_byte(mem, (index as u16).wrapping_add(i as u16));
+        }
+        &straddling[..]
+      } else {
+        code_slice
+      };
       let (next_op, length, _cycles) = decode(code_slice);
       index += length;
       block_ended = next_op.is_block_end();
